@@ -168,7 +168,7 @@ impl Interp {
             return Ok(v.clone());
         }
         match n {
-            "print" | "size" | "type" | "copy" | "deep_copy" | "assert" | "assert_eq" | "assert_ne" | "mkhost" => Ok(V::Native(Rc::new(NativeFn {
+            "print" | "size" | "type" | "assert" | "assert_eq" | "assert_ne" | "mkhost" => Ok(V::Native(Rc::new(NativeFn {
                 name: n.to_string(),
                 recv: None,
             }))),
@@ -1580,8 +1580,13 @@ fn access_value(ip: Rc<Interp>, av: V, k: &Name) -> Fut {
                         name: format!("iterator.{k}"),
                         recv: Some(av.clone()),
                     })))
-                } else {
+                } else if crate::knative::real_core_has(module, &k)
+                    || (matches!(other, V::List(_) | V::Tuple(_) | V::Str(_) | V::Range(..) | V::Iter(_)) && crate::knative::real_core_has("iterator", &k))
+                {
+                    // exists in the real library but is not modelled here
                     Err(Ctl::Unmodelled(format!("{module}.{k}")))
+                } else {
+                    rt("no such member")
                 }
             }
         }
